@@ -107,6 +107,16 @@ def deep_events(rsys, sysin, exp, rng):
             skips.append("unencodable rate")
             continue
         evs.append({"ev": "RatesAt", "c": cvec, "f": f})
+    # the same question with array-valued concentrations (several states in one call): the values
+    # are mutable objects, every state must still give B.f = 0
+    cvecs = [[rng.randint(0, 3) for _ in names] for _ in range(3)]
+    try:
+        fs = cc.observe_rates_batch(rsys, names, cvecs)
+    except Exception as e:
+        fs = None
+        skips.append("batched rates raised %s" % type(e).__name__)
+    for cvec, f in zip(cvecs, fs or []):
+        evs.append({"ev": "RatesAt", "c": cvec, "f": f, "src": "array-valued"})
     try:
         with warnings.catch_warnings():
             warnings.simplefilter("ignore")
@@ -175,6 +185,9 @@ def variant_trace(case, out):
     form = forms[(h // 7) % len(forms)]
     rsys, obs = cc.build_variant(sysin, cfg["name"], form)
     route = "variant:%s:%s" % (cfg["name"], form)
+    if form == "alias-odict":   # the trace describes the system under the keys the library was given
+        alias = dict(zip(cc.names_of(sysin), sysin["aliases"]))
+        sysin = dict(sysin, subs=[dict(x, name=alias[x["name"]], label=x["name"]) for x in sysin["subs"]])
     keys = exp["keys"]
     if cfg["checked"]:
         out["bad"] += compare_build(case, obs, cc.observe_bvectors(rsys) if rsys is not None and form not in cc.SORTING_FORMS else
@@ -531,6 +544,13 @@ def run_seeded(item):
             f = cc.observe_rates(rsys, names, cvec)
             if f is not None:
                 tr.append({"ev": "RatesAt", "c": cvec, "f": f})
+        cvecs = [[rng.randint(0, 2) for _ in names] for _ in range(3)]
+        try:
+            fs = cc.observe_rates_batch(rsys, names, cvecs)
+        except Exception:
+            fs = None
+        for cvec, f in zip(cvecs, fs or []):
+            tr.append({"ev": "RatesAt", "c": cvec, "f": f, "src": "array-valued"})
         # history: the substances are put in sorted order in place, then asked again
         old = list(rsys.substances.keys())
         rsys.sort_substances_inplace()
